@@ -68,6 +68,7 @@ type statsT struct {
 	Violations  []violationT      `json:"violations"`
 	Regressions int               `json:"regressions_replayed"`
 	Extra       map[string]any    `json:"extra"`
+	Counters    map[string]int    `json:"counters"` // summed over shards by the driver
 	hashes      map[uint64]struct{}
 	sampleAt    int
 }
@@ -77,7 +78,7 @@ type violationT struct {
 	Message string `json:"message"`
 }
 
-var stats = &statsT{Labels: map[string]int{}, Excluded: map[string]int{}, KnownSeen: map[string]string{}, Extra: map[string]any{}, hashes: map[uint64]struct{}{}, sampleAt: 1}
+var stats = &statsT{Labels: map[string]int{}, Excluded: map[string]int{}, KnownSeen: map[string]string{}, Extra: map[string]any{}, Counters: map[string]int{}, hashes: map[uint64]struct{}{}, sampleAt: 1}
 
 func hashOf(b []byte) uint64 {
 	s := sha256.Sum256(b)
@@ -477,4 +478,10 @@ func getenvDefault(k, d string) string {
 		return v
 	}
 	return d
+}
+
+func (s *statsT) count(key string, n int) {
+	s.mu.Lock()
+	s.Counters[key] += n
+	s.mu.Unlock()
 }
